@@ -99,6 +99,8 @@ class Monitor:
 
     def check(self):
         ctx = self.ctx
+        if self.failed:
+            return  # one witness per history is enough (keeps a badly broken tree from taking hours)
         adj = G.adjacency(self.edges)
         names = list(self.nodes)
         ctx.count(f"{self.kind}:insertion-checks")
@@ -150,6 +152,9 @@ class Monitor:
                                else "C20/non-shortest-route-cyclic-graph-not-explained-by-known-mechanism")
                         w = dict(w, model_length=model.length(u, v))
                     self.fail(key, dict(w, path=pn, shortest=dist[v]), f"path({u}->{v}) = {pn} has {len(pn) - 1} links, shortest chain has {dist[v]}")
+                    if key != "C20/non-shortest-route-cyclic-graph":
+                        return
+                    self.failed = False  # the known finding does not stop the examination of the history
                     continue
                 if [(a.name, b.name) for a, b in steps] != list(zip(pn, pn[1:])):
                     self.fail("C20/steps-disagree-with-path", dict(w, path=pn), "steps() is not the pairwise chain of path()")
